@@ -246,7 +246,8 @@ def default_exprs(tier):
     question of where samples lie."""
     c_def = C([aff(0, t=1), 0], affd(0.2, {"r0": 1.0}, r0=0.5))
     i_def = I(0, affd(1.0, {"r0": 1.0}, t=0.5, r0=1.0))
-    return [c_def, i_def, B(c_def), Cut(SQ, C([0.5, 0.5], affd(0.1, {"r0": 1.0}, t=0.05, r0=0.2)), contained=True)]
+    s_def = S([aff(0, t=0.5), 0, 0], affd(0.3, {"r0": 1.0}, r0=0.3))
+    return [c_def, i_def, B(c_def), Cut(SQ, C([0.5, 0.5], affd(0.1, {"r0": 1.0}, t=0.05, r0=0.2)), contained=True), s_def]
 
 
 def dedupe(xs):
